@@ -314,6 +314,15 @@ def _diff_case(names):
                         return f'{bname}: listed name {f.path!r} does not look up to that file'
             if {_spec_norm(f.path) for f in fs} != set(spec):
                 return f'{bname}: iterating the filesystem lists {sorted(f.path for f in fs)}'
+        # names that differ only in case: the in-memory and the zip backend are filled in the same order and both
+        # enumerate their container in insertion order, so they must keep the same one of the candidates.  (A VPK
+        # directory regroups its entries by extension and folder - 'a.txt' and 'A.TXT' live in different groups - so
+        # "the later one" is not something the container preserves; for it any candidate is accepted, see above.)
+        for key, (first, candidates) in spec.items():
+            if len(candidates) > 1:
+                picks = {bname: _read(fs, first) for bname, fs in backends.items() if bname in ('virtual', 'zip')}
+                if len(set(picks.values())) > 1:
+                    return f'backends disagree on {first!r} (names differing only in case): {picks}'
         # directory backend: exact-case names
         for n, d in raw_files.items():
             # (backslash spellings are host dependent for a real directory: not required here)
@@ -372,10 +381,11 @@ def _chain_case(spec):
     # expected view: chain-relative name -> bytes of the first member that has it
     expected = {}
     for k, (names, prefix) in enumerate(spec):
+        folder = prefix.replace('\\', '/').rstrip('/')       # 'hl2', 'hl2/' and 'HL2' name the same subfolder
         for n in names:
-            if prefix and not n.casefold().startswith(prefix.casefold() + '/'):
+            if folder and not n.casefold().startswith(folder.casefold() + '/'):
                 continue
-            rel = n[len(prefix) + 1:] if prefix else n
+            rel = n[len(folder) + 1:] if folder else n
             expected.setdefault(rel.casefold(), f'{k}:{n}'.encode())
     for rel, data in expected.items():
         if rel not in chain:
@@ -399,11 +409,14 @@ def _job_chain(spec):
 
 
 @bounded('C19.B-chains', bound='chains of 1..3 (thorough: ..4) in-memory members, each holding a subset of {x.txt, '
-         'cfg/x.txt, hl2/cfg/x.txt, ep2/cfg/x.txt, sub/x.txt, CFG/X.TXT} with prefix "" / hl2 / ep2 / sub; all orders',
+         'cfg/x.txt, hl2/cfg/x.txt, ep2/cfg/x.txt, sub/x.txt, CFG/X.TXT} with prefix "" / hl2 / hl2/ / hl2/cfg / ep2 / sub; all '
+         'orders',
          rule='one case per chain; non-trivial when two members expose the same chain-relative name')
 def b_chains(ctx):
     pool = [(('cfg/x.txt',), ''), (('hl2/cfg/x.txt', 'hl2/y.txt'), 'hl2'), (('ep2/cfg/x.txt',), 'ep2'),
-            (('sub/x.txt', 'x.txt'), 'sub'), (('sub/x.txt', 'x.txt'), ''), (('CFG/X.TXT',), ''), (('hl2/cfg/x.txt',), '')]
+            (('sub/x.txt', 'x.txt'), 'sub'), (('sub/x.txt', 'x.txt'), ''), (('CFG/X.TXT',), ''), (('hl2/cfg/x.txt',), ''),
+            # the same subfolders spelled with a trailing slash / nested
+            (('hl2/cfg/x.txt', 'hl2/y.txt'), 'hl2/'), (('hl2/cfg/x.txt', 'hl2/cfg/z.txt'), 'hl2/cfg')]
     maxn = 4 if ctx.thorough else 3
     jobs = [tuple(p) for n in range(1, maxn + 1) for p in itertools.permutations(pool, n)]
     for job, bad in ctx.pmap(_job_chain, jobs, batch=1024):
